@@ -50,8 +50,9 @@ TIERS = {
         abstract=[dict(name='M7', M=7, ctor=2, maxT=7, windows=[1, 65, 0xD7FD, MAXU1 + 1 - 7])],
         unique_M=5,
         closure_depth=2,
+        costly_mod=30011,
         cc=dict(M=6, W=[65, MAXU1 + 1 - 6], depth=4, max_states=6000),
-        impl=dict(M=6, seqlen=1, ctor=2, maxT=6, demo_M=5),
+        impl=dict(M=6, seqlen=1, ctor=2, maxT=2, demo_M=5),
         install_versions='tables',     # versions with their own category table + one fallback
         api_sample=4000,
     ),
@@ -60,6 +61,7 @@ TIERS = {
                   dict(name='M11-prim', M=11, ctor=3, maxT=1, windows=[1, 0x2FFF, MAXU1 + 1 - 11])],
         unique_M=6,
         closure_depth=99,
+        costly_mod=2003,
         cc=dict(M=7, W=[1, 65, MAXU1 + 1 - 7], depth=6, max_states=60000),
         impl=dict(M=7, seqlen=2, ctor=2, maxT=7, demo_M=6),
         install_versions='all',
@@ -319,7 +321,7 @@ def observe_us(US, u, win: Win, S2, rep2):
                 return 'contains', False, raw
         if (chr(win.R(p)) in u) != want:
             return 'contains', False, raw
-    if merged(raw) != merged(exp_raw):
+    if raw != exp_raw and merged(raw) != merged(exp_raw):
         return 'denotes', False, raw
     if not (S2 & win.wide):
         exp = win.ints(S2)
@@ -406,7 +408,7 @@ def us_worker(job):
                 if reduced and len(T) > 2:
                     continue
                 if costly(win, action, S, T):
-                    if (hash((W, sid, action, tuple(sorted(T)))) + seed) % 1499:
+                    if (hash((W, sid, action, tuple(sorted(T)))) + seed) % G.get('costly_mod', 1499):
                         stats['skipped_costly'] += 1
                         continue
             elif reduced and action in ('Assign', 'BadArg'):
@@ -418,7 +420,7 @@ def us_worker(job):
             edge_ok = True
             for form in forms:
                 if form == 'difference' and sum(win.width(p) for p in args[0] & win.wide) > 4096 \
-                        and (hash((W, sid, tuple(sorted(args[0])))) + seed) % 1499:
+                        and (hash((W, sid, tuple(sorted(args[0])))) + seed) % G.get('costly_mod', 1499):
                     stats['skipped_costly'] += 1      # difference(UnicodeSubset) walks every int of the argument
                     continue
                 try:
@@ -519,15 +521,20 @@ def cc_build(US, CC, pos, neg):
 
 
 def cc_other(US, CC, win: Win, T, oform: str):
+    """the other operand of `-=`: T inside the window as a positive class; T including both outer blocks
+    as a negated class (negative = the window points not in T), so that no list holds a block"""
     o = CC()
     if oform == 'pos':
+        if T & win.wide:
+            return None
         for a, b in runs(T):
             o.positive.add((win.R(a), win.R(b)))
     else:
-        for a, b in runs(frozenset(range(win.M)) - T):
-            o.negative.add((win.R(a), win.R(b)))
-        if not o.negative:
+        rest = frozenset(range(win.M)) - T
+        if not (win.wide <= T) or not rest:
             return None
+        for a, b in runs(rest):
+            o.negative.add((win.R(a), win.R(b)))
     return o
 
 
@@ -612,13 +619,27 @@ def cc_worker(job):
         for ei, (dst, action, args) in enumerate(out[sid]):
             if action not in CC_FORMS:
                 continue
-            if action == 'Isub' and len(args[0]) > 2 and len(args[0]) < win.M - 1:
+            # bool(UnicodeSubset) is len(): every CharacterClass call on an object holding a block of a million
+            # code points in `negative` costs about a second, so arguments stay inside the window (the outer
+            # blocks still flip under Complement) and sources with a block in `negative` are not expanded
+            if action in ('AddRange', 'DiscardRange') and (set(range(args[0], args[1])) & win.wide):
+                continue
+            if action == 'Isub' and (len(args[0] - win.wide) > 3 or (args[0] & win.wide and not win.wide <= args[0])):
+                continue
+            if has_wide_piece(neg) or (action == 'Complement' and has_wide_piece(pos) and
+                                       (hash((pos, neg)) + W) % 61):
+                stats['skipped_costly'] = stats.get('skipped_costly', 0) + 1
                 continue
             S2 = states[dst][0]
             stats['transitions'] += 1
             if S2 != S or action == 'Complement':
                 stats['nontrivial'] += 1
             for form in CC_FORMS[action]:
+                # CharacterClass.__copy__ / UnicodeSubset.__iand__ walk every single int of a block: cost guard
+                if (form.endswith('/binop') and (has_wide_piece(pos) or has_wide_piece(neg))) or \
+                        (form == 'neg/inplace' and has_wide_piece(pos)):
+                    stats['skipped_costly'] = stats.get('skipped_costly', 0) + 1
+                    continue
                 try:
                     cc = cc_build(US, CC, pos, neg)
                     r, note = cc_apply(US, CC, cc, win, action, args, form)
@@ -849,6 +870,8 @@ def run_cc(chk: core.Check, conf: dict) -> None:
                         if ns not in seen:
                             seen.add(ns)
                             frontier.append(ns)
+                print(f'    cc W={W:#x} level {depth}: states so far={n_states} next frontier={len(frontier)} '
+                      f't={time.time() - t0:.1f}s', flush=True)
             chk.add('characterclass_real_states_explored', n_states)
             if frontier:
                 chk.coverage.setdefault('characterclass_closure_truncated', []).append(
@@ -917,10 +940,11 @@ def run_impl(chk: core.Check, conf: dict) -> None:
     wd = os.path.join(chk.scratch, 'impl')
     demos = []
     # (1) the pinned algorithm, as transcribed: TLC must find the canonicity defects in the DESIGN
-    for what, invs, ctor in (('add', ['TypeOK', 'SetCorrect', 'WellFormed', 'RepCanonical'], 0),
-                             ('list-constructor', ['TypeOK', 'WellFormed'], 2)):
-        r = tla.run_tlc('CodePointSetImpl', impl_cfg(conf['demo_M'], 'AsImplemented', 0, ctor, 0, invs), wd, workers=4)
-        want = 'RepCanonical' if what == 'add' else 'WellFormed'
+    for what, invs, ctor in (('add does not merge with the following piece', ['TypeOK', 'SetCorrect', 'WellFormed', 'Merged'], 0),
+                             ('add stores a one-code-point range as a tuple', ['TypeOK', 'SetCorrect', 'WellFormed', 'UnitIsInt'], 0),
+                             ('list constructor only sorts', ['TypeOK', 'WellFormed'], 2)):
+        r = tla.run_tlc('CodePointSetImpl', impl_cfg(conf['demo_M'], 'AsImplemented', 0, ctor, 0, invs), wd, workers=1)
+        want = invs[-1]
         if r.violated != want:
             raise tla.MachineryError(f'CodePointSetImpl/AsImplemented: expected TLC to violate {want} ({what}), '
                                      f'got ok={r.ok} violated={r.violated}\n' + r.output[-1500:])
@@ -1015,29 +1039,40 @@ def export_tables(tier_versions: str):
     running = rx.unicode_version()
     cats['running'] = {n: list(rx.unicode_category(n).codepoints) for n in SUBCATS + MAJORS}
     # blocks, all versions: UnicodeData(version, categories=...) builds only the block tables
-    names: list = []
-    for k, val in ub.__dict__.items():
-        if k.startswith(('UNICODE_BLOCKS_VER_', 'UPDATE_BLOCKS_VER_')):
-            for n in val:
-                if n not in names:
-                    names.append(n)
+    # (block(name, normalize=True) cannot be used to find the superseded names: it raises KeyError for every
+    # name containing a space, so the REMOVED_BLOCKS_VER_* tables are read directly)
+    def vinfo(name: str, prefix: str):
+        return tuple(int(x) for x in name[len(prefix):].split('_'))
     blocks: dict = {}
     dummy = {n: rx.unicode_category(n) for n in SUBCATS + MAJORS}
     for v in installable:
+        vi = tuple(int(x) for x in v.split('.'))
+        names: list = []
+        removed: set = set()
+        for k, val in ub.__dict__.items():
+            if k.startswith('UNICODE_BLOCKS_VER_') or (k.startswith('UPDATE_BLOCKS_VER_') and
+                                                       vinfo(k, 'UPDATE_BLOCKS_VER_') <= vi):
+                names += [n for n in val if n not in names]
+            elif k.startswith('REMOVED_BLOCKS_VER_') and vinfo(k, 'REMOVED_BLOCKS_VER_') <= vi:
+                removed.update(val)
         ud = rx.UnicodeData(v, categories=dummy)
         cur = {}
         for n in names:
-            key = n.replace(' ', '').replace('_', '')
-            try:
-                raw = list(ud.block(key).codepoints)
-            except KeyError:
+            if n in removed:
                 continue
-            try:
-                live = ud.block(n, normalize=True) is ud.block(key)
-            except KeyError:
-                live = False
-            if live:
-                cur[key] = raw
+            key = n.replace(' ', '').replace('_', '')
+            cur[key] = list(ud.block(key).codepoints)
+        # every later name must be unknown to this version
+        for k, val in ub.__dict__.items():
+            if k.startswith('UPDATE_BLOCKS_VER_') and vinfo(k, 'UPDATE_BLOCKS_VER_') > vi:
+                for n in val:
+                    key = n.replace(' ', '').replace('_', '')
+                    if n not in names:
+                        try:
+                            ud.block(key)
+                            notes.append(f'block {n} of a later version is defined in {v}')
+                        except KeyError:
+                            pass
         blocks[v] = cur
     return dict(cats=cats, blocks=blocks, running=running, installable=installable, notes=notes,
                 not_installable=[v for v in uc.UNICODE_VERSIONS if v not in installable])
@@ -1307,6 +1342,7 @@ def replay(rec: dict) -> int:
 def run(chk: core.Check) -> None:
     core.setup_repo_path()
     conf = TIERS[chk.tier]
+    G['costly_mod'] = conf['costly_mod']
     chk.assumptions += [
         'the oracle is spec/CodePointSet.tla (TLC checks CanonSound, SetLaws, RepInjective on every state and '
         'CanonUnique on a small universe); expected member set AND expected raw list of every replayed step are read '
@@ -1316,7 +1352,7 @@ def run(chk: core.Check) -> None:
         'members are observed with `in` on every window point plus 3 probes per outer block, by iteration / len / '
         'reversed when the set has no outer block, and by the raw `codepoints` list',
         'operations whose implementation iterates over every single code point of an outer block (^=, &=) are '
-        'replayed on a 1/1499 sample of such transitions (cost), counted in coverage.skipped_costly',
+        'replayed on a 1/costly_mod sample of such transitions (seconds per call), the rest is counted in coverage.skipped_costly',
         'which exception is raised for arguments outside 0..0x10FFFF is not compared (only: the set is unchanged)',
         'table laws are checked by TLC on the tables as exported through unicode_category/unicode_block/'
         'install_unicode_data/UnicodeData; the unicodedata comparison is a harness sweep, not model checking',
